@@ -8,8 +8,8 @@ ENGINES = [
 NOTES = "Solver-based checking of the real code; see DESIGN.md. Exit codes: 0 held, 1 reproduced unlisted violation, 2 harness error."
 NOT_APPLICABLE = {}
 CHECKS = {
- "C01": {"level": "model_checking", "engine": "TV",
-         "technique": "z3 validity of simplify(f)==f over a bounded-exhaustive grammar (all interpretations), real Simplifier run on formulas with free leaves",
+ "C01": {"level": "model_checking", "engine": "TV+XH",
+         "technique": "z3 validity of simplify(f)==f over a bounded-exhaustive grammar (all interpretations), real Simplifier run on formulas with free leaves; CrossHair on the rewrite rules with symbolic constant payloads and symbol values vs a reference evaluator",
          "text": "bounded symbolic: every operator x argument shape to depth 2 with boundary constants; z3 decides equality of input and output under ALL interpretations (Int/Real unbounded, BV all values at widths 1,2,3,8)",
          "note": "trusts z3 and the independent translator engine/ref/tr_z3.py; depth>2 argued by compositionality (bottom-up rules over simplified children)"},
  "C02": {"level": "model_checking", "engine": "XH+TV",
